@@ -5,7 +5,7 @@ OPTS = [dict(), dict(p_alias=0.7), dict(p_nonexcl=0.5, max_t=4), dict(sched='rr'
 
 
 def run(rep):
-    core_check(rep, "C05", [dict(o) for o in OPTS], 96, 1600, nontrivial_key="impl_designs_built")
+    core_check(rep, "C05", [dict(o) for o in OPTS], 64, 1600, nontrivial_key="impl_designs_built")
     rep.coverage["rule"] = ("random designs from vlib/coregen.py's grammar built with the real API, every valuation of the "
                             "control inputs (or random ones when there are many), both directions bound by TxnCoreTrace; "
                             "clauses ArgRouting (exclusive: argument of the single active site; nonexclusive: OR-combiner over exactly the active sites) and ResultRouting (through provide() alias chains of length 0-3); distinct_nontrivial = built designs")
